@@ -50,4 +50,11 @@ def obsOf (cfg : Cfg) (s : St) : DRes → Option Obs
       openFds := s.L.opened - s.L.closed, slots := s.L.allocs - s.L.frees,
       tmpReg := s.pd.epoll, connReg := s.L.connReg }
 
+/-- the ledger of a process in which the dial left nothing behind -/
+def NothingLeft (s : St) : Prop :=
+  s.L.opened = s.L.closed ∧ s.L.badClose = 0 ∧ s.L.fdOpen = false ∧   -- every descriptor closed exactly once
+  s.L.allocs = s.L.frees ∧ s.L.badFree = 0 ∧ s.L.tmpSlot = false ∧    -- every operator slot freed exactly once
+  s.L.connSlot = false ∧ s.L.connReg = false ∧
+  s.pd.epoll = false                                                  -- no epoll registration left
+
 end Netpoll.Dial
